@@ -80,7 +80,7 @@ MODIFIER_TABLE: list[tuple[list[str], str]] = [
     (["fieldref"], "field"), (["fieldref", "startswith"], "field"),
     (["exists"], "bool"), (["cidr"], "cidr"),
     (["lt"], "num"), (["gte"], "num"), (["neq"], "any"),
-    (["minute"], "smallnum"),
+    (["minute"], "smallnum"), (["hour"], "smallnum"),
 ]
 
 PLACEHOLDERS = ["admins", "servers", "empty_var", "undefined_ph", "num_var"]
